@@ -6,10 +6,11 @@ CC := clang
 CXX := clang++
 VARIANTS := asan tsan plain
 
-REPO_C := mtbl/block.c mtbl/block_builder.c mtbl/compression.c mtbl/crc32c_wrap.c mtbl/fileset.c \
-	mtbl/fixed.c mtbl/iter.c mtbl/merger.c mtbl/metadata.c mtbl/reader.c mtbl/sorter.c mtbl/source.c \
-	mtbl/threadpool.c mtbl/varint.c mtbl/writer.c \
-	libmy/crc32c.c libmy/crc32c-slicing.c libmy/crc32c-sse42.c libmy/heap.c libmy/my_fileset.c
+# the library's sources as /repo's own Makefile.am lists them (a change that adds a file is built too)
+REPO_C := $(shell sed -n '/^mtbl_libmtbl_la_SOURCES/,/^$$/p' $(REPO)/Makefile.am | tr ' \t\\' '\n\n\n' | grep '\.c$$')
+ifeq ($(strip $(REPO_C)),)
+$(error cannot read mtbl_libmtbl_la_SOURCES from $(REPO)/Makefile.am)
+endif
 TOOLS := mtbl_dump mtbl_info mtbl_verify mtbl_merge
 ENGINES := table merge sorter fileset corrupt sched leak wfault
 ENGINE_SRC := $(foreach e,$(ENGINES),$(wildcard engines/$(e).cc))
@@ -20,9 +21,8 @@ HARNESS_CC := engines/main.cc engines/common.cc engines/stubs.cc engines/tableli
 FLAGS_asan := -O1 -g -fno-omit-frame-pointer -fsanitize=address,undefined -fno-sanitize=alignment -fno-sanitize-recover=undefined
 FLAGS_tsan := -O1 -g -fno-omit-frame-pointer -fsanitize=thread
 FLAGS_plain := -O2 -g
-REPO_DEFS := -include sim/repo_config.h -I$(REPO) -I$(REPO)/mtbl -DMTBL_VERIF -Isim -msse4.2 -Wno-macro-redefined
+REPO_DEFS := -include sim/repo_config.h -I$(REPO) -I$(REPO)/mtbl -DMTBL_VERIF -Isim -msse4.2 -Wno-macro-redefined -include sim/seams/pthread.h
 
-SEAM_mtbl/threadpool.c := -include sim/seams/pthread.h
 SEAM_mtbl/writer.c := -include sim/seams.h -Dwrite=sim_write -Dopen=sim_open -Dclose=sim_close -Ddup=sim_dup
 SEAM_mtbl/reader.c := -include sim/seams.h -Dmmap=sim_mmap -Dmunmap=sim_munmap -Dopen=sim_open -Dclose=sim_close
 SEAM_mtbl/sorter.c := -include sim/seams.h -Dmkstemp=sim_mkstemp -Dunlink=sim_unlink -Dclose=sim_close
